@@ -49,3 +49,156 @@ Proof.
   - exists e, snt. destruct retry; [|cbn in E1; rewrite orb_true_r in E1; discriminate].
     split; [reflexivity|]. intros ->. cbn in E1. discriminate.
 Qed.
+
+(* ---------- C19_attempts_bounded ---------- *)
+Lemma loop_calls c fs : forall s,
+  calls (r s) <= calls (loop c fs s) <= calls (r s) + Z.max 1 (eff_attempts c - attempts s) /\
+  0 <= sent (loop c fs s) - sent (r s) <= calls (loop c fs s) - calls (r s).
+Proof.
+  induction fs as [|f rest IH]; intros s; cbn.
+  - destruct (iteration c FNone s) as [x|s'] eqn:E.
+    + destruct (iteration_inl _ _ _ _ E) as [(A & B & _)|(A & B & _)]; lia.
+    + destruct (iteration_inr _ _ _ _ E) as (A & B & C & D & _); lia.
+  - destruct (iteration c f s) as [x|s'] eqn:E.
+    + destruct (iteration_inl _ _ _ _ E) as [(A & B & _)|(A & B & _)]; lia.
+    + destruct (iteration_inr _ _ _ _ E) as (A & B & C & D & _). specialize (IH s'). lia.
+Qed.
+
+Lemma Do_calls c fs : calls (Do c fs) = calls (loop c fs (start c)) /\ sent (Do c fs) = sent (loop c fs (start c)) /\
+  starts (Do c fs) = starts (loop c fs (start c)).
+Proof. unfold Do. destruct (err (loop c fs (start c))); cbn; auto. Qed.
+
+Theorem attempts_bounded c fs :
+  0 <= sent (Do c fs) <= calls (Do c fs) /\ calls (Do c fs) <= Z.max 1 (eff_attempts c).
+Proof.
+  destruct (Do_calls c fs) as (-> & -> & _). pose proof (loop_calls c fs (start c)) as H. cbn in H. lia.
+Qed.
+
+Theorem default_attempts c fs : max_attempts c <= 0 -> sent (Do c fs) <= 5.
+Proof.
+  intros H. pose proof (attempts_bounded c fs) as B. unfold eff_attempts in B.
+  destruct (max_attempts c <=? 0) eqn:E; [|lia]. unfold DefaultMaxIdemponentCallAttempts in B. lia.
+Qed.
+
+(* ---------- at most one call when nothing asks for a retry ---------- *)
+Lemma loop_once c fs s : (forall f s', iteration c f s <> inr s') -> calls (loop c fs s) <= calls (r s) + 1.
+Proof.
+  intros H. destruct fs as [|f rest]; cbn.
+  - destruct (iteration c FNone s) as [x|s'] eqn:E; [|exfalso; eapply H; eauto].
+    destruct (iteration_inl _ _ _ _ E) as [(A & _)|(A & _)]; lia.
+  - destruct (iteration c f s) as [x|s'] eqn:E; [|exfalso; eapply H; eauto].
+    destruct (iteration_inl _ _ _ _ E) as [(A & _)|(A & _)]; lia.
+Qed.
+
+Lemma tbl_at_allows t n : tbl_allows t = false -> snd (tbl_at t n) = false.
+Proof.
+  unfold tbl_allows, tbl_at. intros H. destruct (nth_in_or_default (Z.to_nat (n - 1)) t (false, false)) as [I| ->]; [|reflexivity].
+  destruct (snd (nth (Z.to_nat (n - 1)) t (false, false))) eqn:E; [|reflexivity].
+  assert (X : existsb (fun p => snd p) t = true) by (apply existsb_exists; eauto). congruence.
+Qed.
+
+Lemma tbl_at_resets t n : tbl_resets t = false -> fst (tbl_at t n) = false.
+Proof.
+  unfold tbl_resets, tbl_at. intros H. destruct (nth_in_or_default (Z.to_nat (n - 1)) t (false, false)) as [I| ->]; [|reflexivity].
+  destruct (fst (nth (Z.to_nat (n - 1)) t (false, false))) eqn:E; [|reflexivity].
+  assert (X : existsb (fun p => fst p) t = true) by (apply existsb_exists; eauto). congruence.
+Qed.
+
+Lemma ask_not_allowed c n : callbacks_allow c = false -> (has_callback c = true \/ is_idempotent (meth c) = false) ->
+  snd (fst (ask_callback c n)) = false.
+Proof.
+  unfold callbacks_allow, has_callback, ask_callback.
+  destruct (retry_if_err_up c) as [t|]; [intros H _; cbn; now apply tbl_at_allows|].
+  destruct (retry_if_err c) as [t|]; [intros H _; cbn; now apply tbl_at_allows|].
+  destruct (retry_if c) as [b|]; cbn; [intros -> _; reflexivity|]. intros _ [H|H]; [discriminate|exact H].
+Qed.
+
+Lemma ask_no_reset c n : callbacks_reset c = false -> fst (fst (ask_callback c n)) = false.
+Proof.
+  unfold callbacks_reset, ask_callback.
+  destruct (retry_if_err_up c) as [t|]; [intros H; cbn; now apply tbl_at_resets|].
+  destruct (retry_if_err c) as [t|]; [intros H; cbn; now apply tbl_at_resets|].
+  destruct (retry_if c); reflexivity.
+Qed.
+
+Theorem not_allowed_once c fs : callbacks_allow c = false -> (has_callback c = true \/ is_idempotent (meth c) = false) ->
+  calls (Do c fs) <= 1 /\ sent (Do c fs) <= 1.
+Proof.
+  intros A B. pose proof (attempts_bounded c fs) as [S _].
+  assert (calls (Do c fs) <= 1); [|lia].
+  destruct (Do_calls c fs) as (-> & _). pose proof (loop_once c fs (start c)) as H. cbn in H. apply H.
+  intros f s' E. destruct (iteration_inr _ _ _ _ E) as (_ & _ & _ & _ & _ & _ & _ & (reset & retry2 & called & CB & R2 & _) & _).
+  pose proof (ask_not_allowed c (attempts (start c) + 1) A B) as X. rewrite CB in X. cbn in X. congruence.
+Qed.
+
+Lemma is_idempotent_names m : is_idempotent m = named_idempotent (method_of m).
+Proof. reflexivity. Qed.
+
+Theorem stream_once c fs : body_stream c = true -> calls (Do c fs) <= 1 /\ sent (Do c fs) <= 1.
+Proof.
+  intros A. pose proof (attempts_bounded c fs) as [S _].
+  assert (calls (Do c fs) <= 1); [|lia].
+  destruct (Do_calls c fs) as (-> & _). pose proof (loop_once c fs (start c)) as H. cbn in H. apply H.
+  intros f s' E. destruct (iteration_inr _ _ _ _ E) as (_ & _ & _ & _ & _ & _ & BS & _). congruence.
+Qed.
+
+(* ---------- ErrBodyTooLarge ends the loop ---------- *)
+Lemma loop_too_large c : is_head (meth c) = false -> forall fs i s, nth_error fs i = Some FTooLarge ->
+  calls (loop c fs s) <= calls (r s) + Z.of_nat i + 1.
+Proof.
+  intros NH. induction fs as [|f rest IH]; intros i s H; [destruct i; discriminate|].
+  cbn. destruct (iteration c f s) as [x|s'] eqn:E.
+  - destruct (iteration_inl _ _ _ _ E) as [(A & _)|(A & _)]; lia.
+  - destruct (iteration_inr _ _ _ _ E) as (_ & _ & C & _ & _ & _ & _ & _ & (e & snt & RT & _)).
+    destruct i as [|j]; cbn in H.
+    + injection H as ->. rewrite NH in RT. cbn in RT. discriminate.
+    + specialize (IH j s' H). lia.
+Qed.
+
+Theorem too_large_last c fs i : is_head (meth c) = false -> nth_error fs i = Some FTooLarge ->
+  calls (Do c fs) <= Z.of_nat i + 1.
+Proof.
+  intros NH H. destruct (Do_calls c fs) as (-> & _). pose proof (loop_too_large c NH fs i (start c) H) as X. cbn in X. lia.
+Qed.
+
+(* ---------- deadline ---------- *)
+Lemma loop_starts c : (timeout c >? 0) = true -> forall fs s,
+  exists l, starts (loop c fs s) = starts (r s) ++ l /\ Forall (fun p => fst p < snd p) l /\
+            (callbacks_reset c = false -> Forall (fun p => snd p = deadline s) l).
+Proof.
+  intros T. induction fs as [|f rest IH]; intros s; cbn.
+  - destruct (iteration c FNone s) as [x|s'] eqn:E.
+    + destruct (iteration_inl _ _ _ _ E) as [(_ & _ & A)|(_ & _ & A & DL)].
+      * exists []. rewrite A, app_nil_r. auto.
+      * exists [(now s, deadline s)]. rewrite A. repeat split; auto.
+    + destruct (iteration_inr _ _ _ _ E) as (_ & _ & _ & _ & A & DL & _).
+      exists [(now s, deadline s)]. rewrite A. repeat split; auto.
+  - destruct (iteration c f s) as [x|s'] eqn:E.
+    + destruct (iteration_inl _ _ _ _ E) as [(_ & _ & A)|(_ & _ & A & DL)].
+      * exists []. rewrite A, app_nil_r. auto.
+      * exists [(now s, deadline s)]. rewrite A. repeat split; auto.
+    + destruct (iteration_inr _ _ _ _ E) as (_ & _ & _ & _ & A & DL & _ & (reset & retry2 & called & CB & _ & DS) & _).
+      destruct (IH s') as (l & L1 & L2 & L3). exists ((now s, deadline s) :: l).
+      rewrite L1, A, <- app_assoc. cbn. repeat split; auto.
+      intros NR. constructor; [reflexivity|].
+      pose proof (ask_no_reset c (attempts s + 1) NR) as X. rewrite CB in X. cbn in X. subst reset.
+      rewrite andb_false_r in DS. rewrite <- DS. auto.
+Qed.
+
+(* every attempt starts before the deadline in force ... *)
+Theorem deadline_respected c fs : timeout c > 0 -> Forall (fun p => fst p < snd p) (starts (Do c fs)).
+Proof.
+  intros T. destruct (Do_calls c fs) as (_ & _ & ->).
+  assert (T' : (timeout c >? 0) = true) by lia.
+  destruct (loop_starts c T' fs (start c)) as (l & L1 & L2 & _). rewrite L1. cbn. exact L2.
+Qed.
+
+(* ... and that deadline is the original one unless a callback can ask for a reset *)
+Theorem deadline_not_extended c fs : timeout c > 0 -> callbacks_reset c = false ->
+  Forall (fun p => fst p < timeout c) (starts (Do c fs)).
+Proof.
+  intros T NR. destruct (Do_calls c fs) as (_ & _ & ->).
+  assert (T' : (timeout c >? 0) = true) by lia.
+  destruct (loop_starts c T' fs (start c)) as (l & L1 & L2 & L3). rewrite L1. cbn.
+  specialize (L3 NR). cbn in L3. rewrite Forall_forall in *. intros p I. rewrite <- (L3 p I). apply L2, I.
+Qed.
